@@ -1,6 +1,7 @@
 package main
 
 import (
+	"fmt"
 	"go/ast"
 	"go/constant"
 	"go/types"
@@ -113,7 +114,7 @@ func (fc *fctx) call(e *ast.CallExpr, nres int) string {
 	switch q {
 	case "builtin.len":
 		x := e.Args[0]
-		if fc.kind(x) != kBytes {
+		if fc.kind(x) != kBytes && fc.kind(x) != kStrList {
 			t.fail(e, "len of %s", fc.typeOf(x))
 		}
 		return "(zlen " + fc.expr(x) + ")"
@@ -138,6 +139,18 @@ func (fc *fctx) call(e *ast.CallExpr, nres int) string {
 		return "(trim_space " + fc.args(e)[0] + ")"
 	case "strings.ToUpper":
 		return "(to_upper_u " + fc.args(e)[0] + ")"
+	case "strings.Split":
+		if tv, ok := t.info.Types[e.Args[1]]; ok && tv.Value != nil && len(constant.StringVal(tv.Value)) == 1 {
+			return fmt.Sprintf("(split %d%%N %s)", constant.StringVal(tv.Value)[0], fc.expr(e.Args[0]))
+		}
+		t.fail(e, "strings.Split with a separator that is not a one-byte constant")
+	case "strings.HasPrefix":
+		a := fc.args(e)
+		return "(is_prefix " + a[1] + " " + a[0] + ")"
+	case "strconv.Atoi":
+		return fc.bind("Val (atoi_go " + fc.args(e)[0] + ")")
+	case "errors.New":
+		return fc.errorf(e)
 	case "strings.Repeat":
 		return fc.bind("str_repeat " + fc.expr(e.Args[0]) + " " + fc.toZ(e.Args[1]))
 	case "(base32.Encoding).DecodeString":
@@ -168,7 +181,35 @@ func (fc *fctx) call(e *ast.CallExpr, nres int) string {
 	}
 	if strings.HasPrefix(q, "otp.") {
 		name := strings.TrimPrefix(q, "otp.")
-		return fc.bind(fc.callLocal(e, name, fc.args(e)))
+		v := fc.bind(fc.callLocal(e, name, fc.args(e)))
+		if fi := t.done[name]; fi != nil && len(fi.inout) > 0 {
+			// f(&x, ...): the callee returns its results followed by the new value of x
+			var pats []string
+			nres := fi.nres
+			var rs []string
+			for i := 0; i < nres; i++ {
+				r := fc.tmp()
+				rs = append(rs, r)
+				pats = append(pats, r)
+			}
+			for _, ai := range fi.inout {
+				u, ok := e.Args[ai].(*ast.UnaryExpr)
+				if !ok {
+					t.fail(e, "in/out argument that is not &variable")
+				}
+				id, ok := u.X.(*ast.Ident)
+				if !ok {
+					t.fail(e, "in/out argument that is not &variable")
+				}
+				pats = append(pats, fc.varName(t.info.ObjectOf(id).(*types.Var)))
+			}
+			fc.pre = append(fc.pre, "let '("+strings.Join(pats, ", ")+") := "+v+" in")
+			if nres == 1 {
+				return rs[0]
+			}
+			return "(" + strings.Join(rs, ", ") + ")"
+		}
+		return v
 	}
 	if strings.HasPrefix(q, "(otp.") {
 		// method of a type of the package
@@ -226,6 +267,9 @@ func (fc *fctx) errorf(e *ast.CallExpr) string {
 	if !ok {
 		t.fail(e, "error text %q is not one the model knows", tmpl)
 	}
+	if strings.HasPrefix(tag, "EStd") {
+		return "(Some (" + tag + " []))"
+	}
 	var nums, strs []string
 	for _, a := range e.Args[1:] {
 		k := fc.kind(a)
@@ -234,9 +278,11 @@ func (fc *fctx) errorf(e *ast.CallExpr) string {
 			nums = append(nums, fc.toZ(a))
 		case k == kBytes:
 			strs = append(strs, fc.expr(a))
+		case k == kErr:
+			// %w: the wrapped error's text is not part of the model's structured error
 		default:
 			t.fail(a, "error argument of type %s", fc.typeOf(a))
 		}
 	}
-	return "(Some (EFmt " + tag + " [" + strings.Join(nums, "; ") + "] [" + strings.Join(strs, "; ") + "]))"
+	return "(Some (" + tag + " [" + strings.Join(nums, "; ") + "] [" + strings.Join(strs, "; ") + "]))"
 }
